@@ -119,7 +119,7 @@ def run_tlc(module, cfg, env, wd, workers=8, timeout=1500, heap="4g", simulate=N
     if dfs:
         jopts += " -Dtlc2.tool.queue.IStateQueue=StateDeque"
     cmd = ["java"] + jopts.split() + ["-cp", TLACP, "tlc2.TLC", "-workers", str(workers), "-metadir", meta, "-cleanup",
-                                     "-noGenerateSpecTE", "-config", cfg]
+                                     "-noGenerateSpecTE", "-checkpoint", "0", "-config", cfg]
     if simulate:
         cmd += ["-simulate", simulate]
     if extra:
